@@ -170,18 +170,20 @@ ApplyNeeds(st, needs, skip) ==
     LET hit(j) == j \notin skip /\ ~st.ents[j].gone /\ Conflicts(st.ents[j], needs)
         hitV(j) == j \notin skip /\ j = st.val.ent /\ ~st.val.used /\ Conflicts(st.ents[j], needs)
         now == \E j \in 1..Len(st.ents) : hit(j) /\ st.ents[j].k = "closure" /\ ~st.ents[j].moved
-    IN [st EXCEPT !.ents = [j \in 1..Len(st.ents) |->
-                               IF hit(j) \/ hitV(j) THEN [st.ents[j] EXCEPT !.taint = TRUE] ELSE st.ents[j]],
+    \* TLCEval: TLC keeps [j \in S |-> e] as a lazy function; layers of lazy functions referring to each other several
+    \* times make evaluation exponential in the number of statements
+    IN [st EXCEPT !.ents = TLCEval([j \in 1..Len(st.ents) |->
+                               IF hit(j) \/ hitV(j) THEN [st.ents[j] EXCEPT !.taint = TRUE] ELSE st.ents[j]]),
                   !.rej = @ \/ now]
 
 UseEnt(st, j) == IF st.ents[j].taint THEN [st EXCEPT !.rej = TRUE] ELSE st
 
 \* entity j is moved away / leaves scope: everything that borrows from it can no longer be named
 MarkGone(st, j, moved) ==
-    [st EXCEPT !.ents = [i \in 1..Len(st.ents) |->
+    [st EXCEPT !.ents = TLCEval([i \in 1..Len(st.ents) |->
         IF i = j THEN [st.ents[i] EXCEPT !.moved = @ \/ moved, !.gone = TRUE]
         ELSE IF \E l \in st.ents[i].loans : l[1] = j THEN [st.ents[i] EXCEPT !.gone = TRUE]
-        ELSE st.ents[i]]]
+        ELSE st.ents[i]])]
 
 (***************************************************************************)
 (* Arena liveness (the contract side)                                      *)
@@ -448,8 +450,8 @@ StepMid(st, s) ==
                 \* locals of the block are out of scope: what borrows them cannot be used later
                 locals == {j \in 1..Len(st.ents) : st.ents[j].blk = d /\ st.ents[j].k # "value"}
                 s5 == ApplyNeeds(s4, {<<j, "move">> : j \in locals}, locals)
-                s6 == [s5 EXCEPT !.ents = [j \in 1..Len(s5.ents) |->
-                                             IF j \in locals THEN [s5.ents[j] EXCEPT !.gone = TRUE] ELSE s5.ents[j]],
+                s6 == [s5 EXCEPT !.ents = TLCEval([j \in 1..Len(s5.ents) |->
+                                             IF j \in locals THEN [s5.ents[j] EXCEPT !.gone = TRUE] ELSE s5.ents[j]]),
                                  !.blocks = SubSeq(@, 1, d - 1),
                                  !.val.home = IF st.val.ent = 0 THEN 0
                                               ELSE IF s.a = "ret" THEN d - 1
@@ -661,13 +663,13 @@ BackKeep(hist, lens, i, need, keep) ==
 
 ControlB(root, hist) ==
     LET p    == CHOOSE i \in 1..Len(hist) : hist[i].op = "Produce"
-        lens == [i \in 1..(p - 1) |-> Len(Run(root, Prefix(hist, i)).ents)]
+        lens == TLCEval([i \in 1..(p - 1) |-> Len(Run(root, Prefix(hist, i)).ents)])
         keep == BackKeep(hist, lens, p - 1, {hist[p].h}, {})
         creates(i) == (IF i = 1 THEN 2 ELSE lens[i - 1] + 1)..lens[i]
-        removedEnts == UNION {creates(i) : i \in (1..(p - 1)) \ keep}
+        removedEnts == TLCEval(UNION {creates(i) : i \in (1..(p - 1)) \ keep})
         remap(j) == j - Cardinality({r \in removedEnts : r < j})
         kept == SelectSeq([i \in 1..(p - 1) |-> [s |-> hist[i], i |-> i]], LAMBDA x : x.i \in keep)
-        pre  == [k \in 1..Len(kept) |-> [kept[k].s EXCEPT !.h = IF @ = 0 THEN 0 ELSE remap(@)]]
+        pre  == TLCEval([k \in 1..Len(kept) |-> [kept[k].s EXCEPT !.h = IF @ = 0 THEN 0 ELSE remap(@)]])
         prod == [hist[p] EXCEPT !.h = remap(@)]
     IN WithClosing(root, pre \o <<prod, St("Use", 0, "", "")>>)
 
